@@ -88,6 +88,21 @@ pub fn check_input_sized(a: &mut Allocator, s: &[u8], acc: &mut Acc, full_hash: 
         (Err(_), Err(_)) => {}
         _ => acc.violation(canon(), format!("parse_triples acceptance depends on calculate_tree_hashes: true -> {:?}, false -> {:?}", r2.as_ref().map(|_| p2).map_err(|e| e.to_string()), r2b.as_ref().map(|_| p2b).map_err(|e| e.to_string()))),
     }
+    // 2c. short-read deviation: parse_triples takes any `Read`; a reader answering 1 byte per read must give the same
+    //     triples, hashes and consumption
+    {
+        let mut cr = ChunkReader::new(s, 1);
+        let r2c = parse_triples(&mut cr, true);
+        match (&r2, &r2c) {
+            (Ok(x), Ok(y)) => {
+                if x != y || cr.pos as u64 != p2 {
+                    acc.violation(canon(), format!("parse_triples through a reader answering 1 byte per read differs (consumed {} vs {p2})", cr.pos));
+                }
+            }
+            (Err(_), Err(_)) => {}
+            _ => acc.violation(canon(), format!("parse_triples acceptance depends on how reads are split: whole {:?}, 1-byte reads {:?}", r2.as_ref().map(|_| p2).map_err(|e| e.to_string()), r2c.as_ref().map(|_| cr.pos).map_err(|e| e.to_string()))),
+        }
+    }
     // 3. tree_hash_from_stream
     let mut c3 = Cursor::new(s);
     let r3 = tree_hash_from_stream(&mut c3);
